@@ -25,6 +25,17 @@ func main() {
 	t0 := time.Now()
 	o := hlib.NewOut(*out)
 	defer o.Close()
+	defer func() {
+		// a failed set-up call of the real code is an ERROR OF THE RUN with a name, not a crash
+		if r := recover(); r != nil {
+			if f, ok := r.(setupFailure); ok {
+				o.Close()
+				fmt.Fprintf(os.Stderr, "HARNESS-SETUP-ERROR call=%q err=%q\n", f.call, f.err.Error())
+				os.Exit(3)
+			}
+			panic(r)
+		}
+	}()
 	switch *mode {
 	case "auth":
 		var specs []Spec
